@@ -114,8 +114,11 @@ impl<'a> OctetIter<'a> {
 
     pub fn clone(&self) -> ClonedOctetIter {
         // Convert to logical indices, since ClonedOctetIter doesn't handle physical
+        // Only the entries this iterator has not consumed yet: sparse_index counts raw entries of
+        // the row, including those outside [start_col, end_col), so it cannot index the filtered list
         let sparse_elements = self.sparse_elements.map(|x| {
             x.keys_values()
+                .skip(self.sparse_index)
                 .map(|(physical_col, value)| {
                     (
                         self.sparse_physical_col_to_logical.unwrap()[physical_col] as usize,
@@ -135,7 +138,7 @@ impl<'a> OctetIter<'a> {
             dense_word_index: self.dense_word_index,
             dense_bit_index: self.dense_bit_index,
             sparse_elements,
-            sparse_index: self.sparse_index,
+            sparse_index: 0,
         }
     }
 }
